@@ -366,7 +366,9 @@ func (ex *Exec) applyGhostSets(env *Env, c *Contract, st *State) {
 		v := rhs.L[0]
 		if g.Cond != nil {
 			cond := env.boolTerm(g.Cond)
-			cur := env.eval(g.LHS).L[0]
+			oe := *env
+			oe.cur = env.old
+			cur := oe.eval(g.LHS).L[0]
 			v = Ite(cond, v, cur)
 		}
 		us = append(us, upd{g, v})
@@ -426,6 +428,13 @@ func (ex *Exec) resolveModifies(env *Env, c *Contract) *ModSet {
 				s := pre.eval(m.Args[0])
 				elem := s.T.Underlying().(*types.Slice).Elem()
 				ms.Mem = append(ms.Mem, memRegion{elem, s.Arr(), Add(s.Off(), s.Len()), Add(s.Off(), s.Cap())})
+			case "bufbytes": // content bytes of a bytes.Buffer from index lo on: bufbytes(buf, lo)
+				b := pre.eval(m.Args[0])
+				lo := Int(0)
+				if len(m.Args) > 1 {
+					lo = pre.intTerm(m.Args[1])
+				}
+				ms.Mem = append(ms.Mem, memRegion{tByte, bufArr(identOf(b)), lo, IntB(pow2[64])})
 			case "mapof":
 				mv := pre.eval(m.Args[0])
 				k := typeKey(mv.T)
